@@ -94,6 +94,14 @@ func (c Case) object(i int, prefix string, depth int, enclosingHost int) map[str
 	if id, ok := c.idValue(i, prefix); ok {
 		m["id"] = id
 	}
+	if d.Type == "Note" || d.Type == "Article" {
+		// the author is the resident person of the host this document's id names
+		claimed := i
+		if d.ClaimDoc >= 0 {
+			claimed = d.ClaimDoc
+		}
+		m["attributedTo"] = "https://" + c.authority(claimed) + prefix + "/resident"
+	}
 	for _, l := range d.Links {
 		var v any
 		t := l.Target
@@ -125,6 +133,17 @@ func (c Case) object(i int, prefix string, depth int, enclosingHost int) map[str
 				o := c.object(t, prefix, depth-1, enclosingHost)
 				delete(o, "id")
 				v = o
+			}
+		case "wrapped":
+			// Lemmy style: an inline Create (claiming the target's id) around an embedded copy of the target
+			if depth <= 0 {
+				v = c.urlOf(t, prefix)
+			} else {
+				w := map[string]any{"type": "Create", stampField: "⟦%REQHOST%⟧", "object": c.object(t, prefix, depth-1, enclosingHost)}
+				if id, ok := c.idValue(t, prefix); ok {
+					w["id"] = id + "/activity"
+				}
+				v = w
 			}
 		}
 		if l.InList {
@@ -162,6 +181,9 @@ func (c Case) install(prefix string) {
 		}
 		b, _ := json.Marshal(c.object(i, prefix, 2, d.Host))
 		sim.Set(d.Host, target, vsim.JSON(expandPorts(string(b))))
+	}
+	for h := 0; h < sim.Hosts(); h++ {
+		sim.Set(h, prefix+"/resident", vsim.JSON(`{"id":"https://%REQHOST%`+prefix+`/resident","type":"Person","name":"resident ⟦%REQHOST%⟧","preferredUsername":"resident","x-stamp":"⟦%REQHOST%⟧"}`))
 	}
 }
 
@@ -243,6 +265,27 @@ func check(c Case) vrep.Result {
 		for _, f := range c.Fetches {
 			item := pub.New(sim.Expand(expandPorts(c.urlOf(f, prefix)), -1, prefix), nil)
 			for _, it := range vgen.Reach(item, 12) {
+				if post, isPost := it.(*pub.Post); isPost {
+					// a post is shown with its authors; its own JSON must have been served by the host they live on
+					pp, err := vorc.Parse(post.Name())
+					if err != nil {
+						continue
+					}
+					st := stampRe.FindStringSubmatch(vorc.Plain(pp.Cells))
+					if st == nil {
+						continue
+					}
+					for _, cr := range post.Creators() {
+						a, isActor := cr.(*pub.Actor)
+						if !isActor || a.Identifier() == nil {
+							continue
+						}
+						if a.Identifier().Host != st[1] {
+							return vrep.Result{Classes: classes, Err: fmt.Errorf("a post whose JSON was served by %s is shown as written by an author on %s (%s)", st[1], a.Identifier().Host, vorc.Plain(pp.Cells))}
+						}
+					}
+					continue
+				}
 				actor, ok := it.(*pub.Actor)
 				if !ok {
 					continue
@@ -290,7 +333,7 @@ func check(c Case) vrep.Result {
 var docTypes = []string{"Note", "Person", "Create", "OrderedCollection", "Collection", "Group", "Article", "Announce", "OrderedCollectionPage"}
 
 func gen(t *rapid.T) Case {
-	c := Case{EndToEnd: rapid.IntRange(0, 3).Draw(t, "endtoend") == 0}
+	c := Case{EndToEnd: rapid.IntRange(0, 1).Draw(t, "endtoend") == 0}
 	n := rapid.IntRange(2, 10).Draw(t, "ndocs")
 	for i := 0; i < n; i++ {
 		d := Doc{Host: rapid.SampledFrom([]int{0, 0, 1, 1, 2}).Draw(t, "host"), Name: fmt.Sprintf("d%d", i), Type: rapid.SampledFrom(docTypes).Draw(t, "type"), ClaimDoc: -1}
@@ -311,7 +354,7 @@ func gen(t *rapid.T) Case {
 			nl := rapid.IntRange(0, 3).Draw(t, "nlinks")
 			for k := 0; k < nl; k++ {
 				d.Links = append(d.Links, Link{Key: rapid.SampledFrom(followKeys).Draw(t, "key"), Target: rapid.IntRange(0, n-1).Draw(t, "target"),
-					Shape: rapid.SampledFrom([]string{"ref", "relref", "stub", "embed", "embed", "embed-noid"}).Draw(t, "shape"), InList: rapid.Bool().Draw(t, "inlist")})
+					Shape: rapid.SampledFrom([]string{"ref", "relref", "stub", "embed", "embed", "embed-noid", "wrapped", "wrapped"}).Draw(t, "shape"), InList: rapid.Bool().Draw(t, "inlist")})
 			}
 		}
 		c.Docs = append(c.Docs, d)
